@@ -146,6 +146,12 @@ def run(ctx: core.Check):
         else:
             t = 0
         lines.append(f"EXTRAVERSION = {text}")
+        # ONE of the two explicit overrides given: the other value is still derived from the version fields
+        override = [None, None, None, "ver", None, "seq", None][k % 7]
+        if override == "ver":
+            lines.append("APP_ROOT_VERSION = 9.8.7-rc.1")
+        elif override == "seq":
+            lines.append("APP_ROOT_SEQ_NUM = 77")
         # the FORM of the file varies: no blanks around '=', CRLF line ends, a comment and a blank line, no final newline
         form = k % 5
         if form == 1:
@@ -168,12 +174,14 @@ def run(ctx: core.Check):
             digits = [sv >> 24, (sv >> 16) & 255, (sv >> 8) & 255, sv & 255]
         except Exception:
             digits = [-1]
-        tr.begin({"kind": "seq", "tuple": [M, m, p, t], "extra": text})
-        tr.ev("Seq", t=[M, m, p, t], digits=digits)
+        tr.begin({"kind": "seq", "tuple": [M, m, p, t], "extra": text, "override": override})
+        if override != "seq":   # (an explicit sequence number is the user's choice, not a derived default)
+            tr.ev("Seq", t=[M, m, p, t], digits=digits)
         acc, got = convert(dv) if isinstance(dv, str) else (False, [])
         tr.ev("Default", M=M, m=m, p=p, x={"class": cls, "label": label or "alpha", "num": num}, found=isinstance(dv, str),
               accepted=acc, got=got, dv=dv or "")
-        tuples.append(([M, m, p, t], digits))
+        if override != "seq":
+            tuples.append(([M, m, p, t], digits))
         ctx.count("evaluations")
         ctx.nontriv(("seq", M, m, p, t, text))
         if k == 4:
